@@ -185,7 +185,7 @@ pub fn supervise(prop: &Property, tier: Tier) -> i32 {
                     files.sort();
                     for f in files {
                         let mut c = Command::new(&bin);
-                        c.arg("replay").arg(&f).arg("--quiet").stdin(Stdio::null()).stdout(Stdio::null());
+                        c.arg("replay").arg(&f).arg("--quiet").stdin(Stdio::null()).stdout(Stdio::null()).stderr(Stdio::null());
                         set_rlimit(&mut c, RLIMIT_AS_BYTES);
                         let st = c.status();
                         let died = match st {
